@@ -9,7 +9,7 @@ partial def loop (h : IO.FS.Stream) (out : IO.FS.Stream) (st : IssueSt) : IO Uni
   let line ← h.getLine
   if line.isEmpty then return ()
   let toks := (line.trimAscii.toString.splitOn " ").filter (· ≠ "")
-  match handleMint st toks with
+  match handleIssue st toks with
   | some (st', ans) => out.putStrLn ans; loop h out st'
   | none => out.putStrLn "bad-op"; loop h out st
 
